@@ -21,7 +21,8 @@ equality after round trip - numerical, needs evaluation.
 import re
 from ..inline import inline_view
 from ..mir import AnchorLost
-from ..util import truth_edges, norm_cmps, df_of, fn_short, in_set, backward_slice, operand_path, path_last, switch_on, switch_edges
+from .c20 import slice_fields
+from ..util import dj_of, truth_edges, norm_cmps, df_of, fn_short, in_set, backward_slice, operand_path, path_last, switch_on, switch_edges
 from ..shapes import Accept, SV, DV, NT, impl_method
 from .c17 import REF_SER, REF_DE, norm_self, ASYMMETRIC, head, fmt, N
 
@@ -399,6 +400,30 @@ def r6(ctx, facts):
     r.instance("udt:missing-field-is-ok-none", oknone, "a field missing from the serialized UDT must be reported as Ok(None), not as end of iteration or error", ub.span)
 
 
+def r7(ctx, facts):
+    r = ctx.rule("R7", "dynamic UDT / tuple serialisation writes one cell per field of the TYPE (null when the value has none)", floor=2)
+    for fn, fld, what in (("serialize_udt", "field_types", "UDT field"), ("serialize_tuple_like", None, "tuple element")):
+        b = facts.one(r"^scylla_cql_core::serialize::value::%s$" % fn)
+        df = df_of(b, facts)
+        msw = [c.bb for c in b.calls_to("CellValueBuilder::<'buf>::make_sub_writer")]
+        nexts = [c for c in b.calls_to("core::iter::traits::iterator::Iterator::next")]
+        if fld:
+            nexts = [c for c in nexts if fld in slice_fields(b, c.args[0])]
+        if not msw or not nexts:
+            raise AnchorLost("%s: make_sub_writer / loop over the type's fields not found (%d/%d)" % (fn, len(msw), len(nexts)))
+        dj = dj_of(b, facts)
+        ok = True
+        for nx in nexts:
+            for sw in switch_on(b, df, ("disc", (nx.dest[0], ()))):
+                edges, other = switch_edges(b, sw)
+                some_tg = edges.get(1, other)
+                if nx.bb in dj.feasible_reach_edge(sw, some_tg, removed_nodes=msw):
+                    ok = False
+        r.instance("%s:cell-per-type-field" % fn, ok,
+                   "%s: an iteration of the loop over the type's %ss can reach the next iteration without make_sub_writer(): the cell of that field is not written and every later field shifts (a missing value must be written as null)" % (fn, what),
+                   b.span)
+
+
 def check(ctx):
     facts = inline_view(ctx.facts("default"))
     A = Accept(facts)
@@ -407,7 +432,7 @@ def check(ctx):
         tabs = r1(ctx, facts, A)
     except AnchorLost as ex:
         ctx.rule("R1x", "anchors").fail("anchor-lost", str(ex))
-    for fn in ((lambda c, f: r2(c, f, tabs)) if tabs else None, r3, r4, r5, r6):
+    for fn in ((lambda c, f: r2(c, f, tabs)) if tabs else None, r3, r4, r5, r6, r7):
         if fn is None:
             continue
         try:
